@@ -17,9 +17,17 @@
   blocked/elapsed < q (1 + 2^-49), and the double test can only differ from the exact test inside
   the band q (1 ± 2^-50) (`Proofs/C03Exact.lean`: `Duration::as_secs_f64` is accurate to 2^-52 and
   the quotient to 2^-50, by composing the half-ulp error of each of the five roundings).
+
+  `C03_monitor_accepts_model`: the executable monitor `C03.monitor` (Spec/C03.lean, the one the
+  driver runs on the implementation's traces) returns `none` on the model's OWN trace
+  `LL.modelTrace` for every machine set, configuration, oracle and history (single events and
+  batches, arbitrary clocks, faulting calls: the monitor stops at the first call that did not
+  return ok). No hypothesis is needed: the monitor's recount `blockCall` is the model's blocking
+  accounting (`BlkRel`), and its test `blockOK` uses the same double share as the code.
 -/
 import MbVerif.Proofs.C03
 import MbVerif.Proofs.C03Exact
+import MbVerif.Proofs.MonitorAcceptC
 
 namespace Mb.C03
 open Mb
@@ -122,5 +130,73 @@ theorem C03_share_band (a b : Nat) (f : F64) (q : ℚ) (ha : a < 2 ^ 53 * 10 ^ 9
     blocked time of 0. -/
 example : blockHistory 0 [([.blockingBegin 0], 10), ([.blockingEnd], 5)] =
     { active := false, started := 10, total := 0 } := by decide
+
+/-! ### the monitor on the model's own trace -/
+
+/-- **`C03.monitor` accepts the model's own trace**: for every machine set, fractions, start time,
+    oracle and history of calls (single events and batches, arbitrary clock values, faulting calls)
+    the monitor applied to the trace of the model (`LL.modelTrace`: per call the events, outcome,
+    returned actions, snapshot and log, as the driver records them) reports no violation. So the
+    monitor cannot raise a false alarm on an implementation that agrees with the model, and the
+    model satisfies the property in the monitor's own vocabulary. No hypotheses: machines need not
+    be validated; a call in which the model faults (checked `Duration` add) is reported as not ok
+    and ends the monitor's walk. -/
+theorem C03_monitor_accepts_model (ms : List Machine) (fp fb : F64) (t0 : Int) (rng : σ) (h : List Call) :
+    monitor (LL.modelTrace ρ ms fp fb t0 rng h) = none :=
+  C03acc.monitor_model ρ ms fp fb t0 rng h
+
+section MonitorDemo
+
+private def dZero : Dist := { dist := .uniform 0 0, start := 0, max := 0 }
+/-- the doubles 0.5 and 0.1 -/
+private def half : F64 := 4602678819172646912
+private def tenth : F64 := 4591870180066957722
+/-- one state: BlockOutgoing with the given replace flag; NormalSent (3), BlockingBegin (6) and
+    BlockingEnd (7) lead back to it -/
+private def bSt (rp : Bool) : State :=
+  { action := some (.blockOutgoing false rp dZero dZero none), counterA := none, counterB := none,
+    transitions := (((List.replicate 13 none).set 3 (some [{ target := 0, prob := 1065353216 }])).set 6
+      (some [{ target := 0, prob := 1065353216 }])).set 7 (some [{ target := 0, prob := 1065353216 }]) }
+/-- budget 1 us, blocking share 0.5, no replace -/
+private def bM : Machine :=
+  { allowedPaddingPackets := 0, maxPaddingFrac := 0, allowedBlockedMicrosec := 1, maxBlockingFrac := half,
+    states := [bSt false] }
+/-- no budget, blocking share 0.1, replace -/
+private def rM : Machine :=
+  { allowedPaddingPackets := 0, maxPaddingFrac := 0, allowedBlockedMicrosec := 0, maxBlockingFrac := tenth,
+    states := [bSt true] }
+private def dρ : Oracle Unit := { u := fun _ => (0, ()), d := fun _ _ => (0, ()) }
+/-- times in ns; the clock runs backwards once -/
+private def bTrace : FwTrace :=
+  LL.modelTrace dρ [bM, rM] 0 0 0 () [([.normalSent], 1000), ([.blockingBegin 0], 2000), ([.normalSent], 3000),
+    ([.blockingEnd], 5000), ([.normalSent, .normalSent], 6000), ([.normalSent], 10000), ([.normalSent], 9000),
+    ([.normalSent], 100000)]
+
+/-- Non-vacuity of `C03_monitor_accepts_model`: no call faults, so the monitor walks all eight.
+    Call 1: machine 0 blocks within its budget, machine 1 on the share branch (0/1000). Calls 2, 3
+    (blocking active since 2000): machine 0 on budget / share 1000/3000, machine 1 only by its
+    replace flag. Call 4 (BlockingEnd at 5000: 3000 ns blocked, share 0.6): nobody may block.
+    Call 5 is a batch (share exactly 0.5: denied by the model, not tested by the monitor). Calls 6
+    and 7 (clock back from 10000 to 9000): machine 0 on the share branch (0.3, 0.33), machine 1
+    denied. Call 8: both below their shares. The monitor accepts; it rejects the same trace when
+    call 4 is made to return a BlockOutgoing and does not test that action in the batch call 5. -/
+example : bTrace.calls.map (·.res) = [.ok, .ok, .ok, .ok, .ok, .ok, .ok, .ok] ∧
+    bTrace.calls.map (·.actions) =
+      [[.blockOutgoing 0 0 false false 0, .blockOutgoing 0 0 false true 1],
+       [.blockOutgoing 0 0 false false 0, .blockOutgoing 0 0 false true 1],
+       [.blockOutgoing 0 0 false false 0, .blockOutgoing 0 0 false true 1],
+       [], [],
+       [.blockOutgoing 0 0 false false 0], [.blockOutgoing 0 0 false false 0],
+       [.blockOutgoing 0 0 false false 0, .blockOutgoing 0 0 false true 1]] ∧
+    monitor bTrace = none ∧
+    blockHistory 0 [([.normalSent], 1000), ([.blockingBegin 0], 2000), ([.normalSent], 3000), ([.blockingEnd], 5000)] =
+      { active := false, started := 2000, total := 3000 } ∧
+    (monitor { bTrace with calls := bTrace.calls.mapIdx (fun i c =>
+        if i = 3 then { c with actions := [.blockOutgoing 0 0 false false 0] } else c) }).isSome = true ∧
+    monitor { bTrace with calls := bTrace.calls.mapIdx (fun i c =>
+        if i = 4 then { c with actions := [.blockOutgoing 0 0 false false 0] } else c) } = none := by
+  decide +kernel
+
+end MonitorDemo
 
 end Mb.C03
